@@ -20,7 +20,7 @@ CHECKS = {
              "all-superset-of-any relation and exit status 1 without syntenies are exercised at file level with the solver's witness cost vectors "
              "(concrete: costs cannot cross argv/JSON symbolically).",
         design="5/C12", engine="crosshair",
-        note="Trusted: CrossHair 0.0.110 + z3, engine.forksym, oracles; argparse is bypassed (sub-command functions called with a Namespace); "
+        note="Trusted: CrossHair 0.0.110 + z3, engine.forksym, oracles; "
              "get_species_mapping is enumerated (CrossHair 'Not confirmed')."),
     "C19": dict(
         technique="z3 specification (integer position per vertex, Distinct, pos[u] < pos[v]) deciding membership, distinctness and completeness of toposort_all's output set",
